@@ -96,6 +96,27 @@ func (c *ItemsController) Scale(ratio float32, factor *float64) (string, error) 
 	return str(r), err
 }
 
+type ID string
+
+// Sized integers, a pointer to bool, a slice of ints, a pointer to an enum and a string alias - all in the query.
+//
+// @Method(GET)
+// @Route(/wide)
+// @Query(p0)
+// @Query(p1)
+// @Query(p2)
+// @Query(p3)
+// @Query(p4)
+// @Query(p5)
+// @Query(p6)
+// @Query(p7)
+// @Query(p8)
+// @Query(p9)
+func (c *ItemsController) Wide(p0 int16, p1 int32, p2 uint8, p3 uint16, p4 uint32, p5 uint64, p6 *bool, p7 []int, p8 *Color, p9 ID) (string, error) {
+	r, err := trace.Invoke("ItemsController.Wide", p0, p1, p2, p3, p4, p5, p6, p7, p8, p9)
+	return str(r), err
+}
+
 // A method declared with an anonymous receiver and a @Security annotation without properties.
 //
 // @Method(GET)
